@@ -63,11 +63,17 @@ Definition W2 : schema :=
           (nm "e", {| f_type := StNonNull (StNamed (nm "E")); f_args := [(nm "in", StNamed (nm "In"))];
                       f_req := [fb]; f_dep := false; f_ret := [] |});
           (nm "o", wfield "O" "O")] [] [])];
-     query := nm "Query"; mutation := None; subscription := None; directives := [] |}.
+     query := nm "Query"; mutation := None; subscription := None; directives := []; additional := [] |}.
 
 Example W2_ok :
   schema_ok W2 = true /\
   map fst (types (erase W2 [fa])) = map nm ["Int"; "String"; "O"; "U"; "Query"] /\
   map fst (fields_of (match lookup (erase W2 [fa]) (nm "Query") with Some t => t | None => NScalar [] end)) = map nm ["u"; "o"] /\
   schema_ok (erase W2 [fa]) = true.
+Proof. vm_compute. repeat split; reflexivity. Qed.
+
+(** the exclusion hypothesis of [C13_noninterference_physical] is satisfiable with something erased
+    (W: every surviving type stays reachable), and false on the orphan witness *)
+Example W_no_orphans :
+  excl_orphaned_type W [] = false /\ erase_physical W [] = erase W [] /\ excl_orphaned_type W_orphan [] = true.
 Proof. vm_compute. repeat split; reflexivity. Qed.
